@@ -431,7 +431,10 @@ def minimise(engine_factory, events, sig, budget=400, wall_budget=90.0):
     head, body = events[:1], list(events[1:])
     # cut everything after the incident first
     rec = engine_factory().replay(events)
-    first = min(i.at for i in rec.incidents if i.sig == sig)
+    ats = [i.at for i in rec.incidents if i.sig == sig]
+    if not ats:
+        return events, False      # fired once and not the next time: state outside the run is involved
+    first = min(ats)
     if 0 < first < len(events) - 1 and fails(events[:first + 1]):
         body = list(events[1:first + 1])
     n = 2
